@@ -455,7 +455,12 @@ def _r5_persistence(run):
     project = run.project
     f = project.fn(PYR + ".PyramidIO.write_image")
     run.note_func(f)
-    ev = sym.make_evaluator(project, PYR, [])
+    # private helpers of PyramidIO ("remove the tile file", "what a missing tile reads as") belong to these two methods
+    ev = sym.make_evaluator(project, PYR, [], inline_local=True)
+    ev.self_class = PYR + ".PyramidIO"
+    ev.inline_resolved = True
+    ev.no_inline = ("tile_path", "save", "is_completely_masked", "make_maskable_buffer", "clear", "load_path", "read_image", "write_image", "update_image",
+                    "get_default_format", "open")
     r = ev.run(f.node)
     unl = [e for e in r.events if e.kind == "call" and show(e.term[1]) in ("os.unlink", "os.remove")]
     sav = [e for e in r.events if e.kind == "call" and e.term[1][0] == "attr" and e.term[1][2] == "save"]
@@ -497,9 +502,23 @@ def _r5_persistence(run):
     run.note_func(g)
     rg = ev.run(g.node)
     default = ("sym", g.params()[2])
-    rets = rg.returns
+    # the returns, with case distinctions inside a returned value (an inlined helper) opened up
+    rets = []
+    def open_up(pc, t, n):
+        if t[0] == "ite":
+            open_up(tuple(pc) + tuple(sym.literals(t[1], True)), t[2], n)
+            open_up(tuple(pc) + tuple(sym.literals(t[1], False)), t[3], n)
+        elif not (t[0] == "op" and t[1] == "never-returns"):
+            rets.append((tuple(pc), t, n))
+    for pc_, t_, n_ in rg.returns:
+        open_up(pc_, t_, n_)
     none_ret = [(pc, t, n) for pc, t, n in rets if t == sym.NONE]
-    buf_ret = [(pc, t, n) for pc, t, n in rets if t != sym.NONE and any(c[0] == sym.cmp("Eq", default, ("const", "masked")) and c[1] for c in pc if c[0] != "loop")]
+    is_masked, is_none = sym.cmp("Eq", default, ("const", "masked")), sym.cmp("Eq", default, ("const", "none"))
+    other_raises = any(e.kind == "raise" and any(c[0] == is_masked and not c[1] for c in e.pc if c[0] != "loop") for e in rg.events)
+    buf_ret = [(pc, t, n) for pc, t, n in rets if t != sym.NONE and (
+        any(c[0] == is_masked and c[1] for c in pc if c[0] != "loop")
+        # `if default == "none": return None` / `if default != "masked": raise` / ... return the buffer
+        or (other_raises and any(c[0] == is_none and not c[1] for c in pc if c[0] != "loop")))]
     problems = []
     if not none_ret or not any(c[0] == sym.cmp("Eq", default, ("const", "none")) and c[1] for c in none_ret[0][0] if c[0] != "loop"):
         problems.append(("read-none", "a missing tile is not reported as None under default='none'"))
